@@ -239,6 +239,18 @@ def run(ctx):
                 ctx.violation({"line1": lines[i], "line2": lines[j]}, "equality", None)
             if same and hash(f) != hash(g):
                 ctx.violation({"line1": lines[i], "line2": lines[j]}, "hash", None)
+    # features that come out of a DATABASE under different keys but print the same line are equal and hash alike
+    import gffutils
+    from .. import dbio
+    twin = "chr1\tsrc\texon\t5\t9\t.\t+\t.\tParent=t1"
+    with dbio.quiet():
+        tdb = gffutils.create_db(twin + "\n" + twin + "\n", ":memory:", from_string=True, merge_strategy="create_unique")
+    tf = list(tdb.all_features())
+    if len(tf) == 2 and str(tf[0]) == str(tf[1]) and tf[0].id != tf[1].id:
+        if not (tf[0] == tf[1]) or tf[0] != tf[1]:
+            ctx.violation({"line1": twin, "line2": twin, "from_database": True}, "equality", {"ids": [tf[0].id, tf[1].id]})
+        elif hash(tf[0]) != hash(tf[1]):
+            ctx.violation({"line1": twin, "line2": twin, "from_database": True}, "hash", None)
     # the same for objects with a HISTORY: hashed / compared / put in a set first, edited afterwards (a column, an attribute value, a new key),
     # then compared with a fresh parse of what they print now
     for i, l in enumerate(lines):
